@@ -4,6 +4,7 @@ CONSTANTS
   Bases <- BasesQuick
   EvalBases <- EvalQuick
   EvalBits = {3}
+  EvalMasks = {90}
   Seed <- SeedQ
 INVARIANTS Rejects Emit
 CHECK_DEADLOCK FALSE
